@@ -752,3 +752,4 @@ MANIFEST = {
 MANIFEST["text"] += " Object histories: 7 start quantities (scalar, ndarray, zero, percent, nm/THz) x all sequences of <= 3 of 15 in-place steps (read dimensionality, //=, *=, /=, **=, ito_base/root/reduced_units, ito to other units, ito across dimensions through the 'sp' context) x 14 partners x 6 operators x both operand orders + hash: identical to a freshly built quantity of the same magnitude and units. Constructor paths: the same quantity built 9 ways in one registry (registry.Quantity, generic pint.Quantity, unit arithmetic, pickle round trips, copies) - all pairs equal, same hash, never strictly ordered."
 MANIFEST["text"] += ' Exponent siblings: a 20-quantity alphabet of compound units that differ only in the sign or size of one exponent (km/s, km/s**2, km*s, km**-1, ...), all pairs/triples, on a fresh registry and after every pair was already compared.'
 MANIFEST["text"] += ' Logarithmic units at magnitude 0 (their reference level) against zero and unit quantities: 14-quantity alphabet, all pairs, == != < > hash, bare 0 and bool.'
+MANIFEST["text"] += ' After a redefinition: 17 quantities over inch and six units built on it; a registry used before the redefinition and an unused one answer ==, <, hash-equality alike, and == stays transitive.'
